@@ -275,6 +275,14 @@ TAGS = {
     "with_macro": "{% with a: x, b: y %}{{ a }}{{ b }}{% endwith %}{% macro m a, b: x %}{{ a }}{{ b }}{% endmacro %}{% call m y %}{% call m a: y, c: x %}",
     "string_seq": "{% for c in x %}{{ c }}{% endfor %}{{ x | first }}{{ x | last }}{{ x[0] }}{{ x[y] }}",
     "for_hash": "{% for kv in d limit: x %}{{ kv[0] }}{{ kv[y] }}{% endfor %}",
+    # the loop helper objects used as values: iterated as hashes, indexed, measured
+    "loop_helpers_iterated": ("{% for i in xs %}{% for h in forloop %}{{ h[0] }}{{ h[y] }}{% endfor %}{{ forloop | size }}{{ forloop[x] }}{{ forloop.parentloop[x] }}"
+                              "{% for j in xs %}{% for h in forloop.parentloop limit: x %}{{ h }}{% endfor %}{% endfor %}{% endfor %}"
+                              "{% tablerow i in xs cols: 2 %}{% for h in tablerowloop limit: x %}{{ h }}{% endfor %}{{ tablerowloop[y] }}{{ tablerowloop | first }}{% endtablerow %}"),
+    # the context variables the babel filters read
+    "babel_context": ("{% assign locale = x %}{% assign timezone = y %}{{ 1234.5 | decimal }}{{ 3 | currency }}{{ '2020-01-02' | datetime }}{{ 5 | unit: 'length-meter' }}"
+                      "{% assign currency_code = x %}{% assign datetime_format = y %}{{ 3 | currency }}{{ '2020-01-02 10:00' | datetime }}{% assign input_locale = y %}{{ '1,5' | decimal }}"
+                      "{% assign decimal_format = x %}{% assign currency_format = y %}{{ 2 | decimal }}{{ 2 | money }}{% assign unit_length = x %}{{ 5 | unit: 'length-meter' }}"),
 }
 TT = {}
 for _m, _e in ENVS.items():
@@ -353,7 +361,7 @@ def _tag_sweep(kind, m):
 
 def c02_tags_specials(ti: int, mode: int) -> bool:
     """
-    pre: 0 <= ti <= 17 and 0 <= mode <= 2
+    pre: 0 <= ti <= 19 and 0 <= mode <= 2
     post: _
     """
     if excluded("c02_tags_specials", locals()):
@@ -555,8 +563,8 @@ def selftest():
         fails.append("plus with junk should only raise LiquidError")
     if only_liquid(ENV.from_string("{{ x }}"), {"x": 1}) is not True:
         fails.append("baseline")
-    if len(TAGS) != 18:
-        fails.append("c02_tags_specials is bounded to 18 tag templates, found %d" % len(TAGS))
+    if len(TAGS) != 20:
+        fails.append("c02_tags_specials is bounded to 20 tag templates, found %d" % len(TAGS))
     if len(NAMES) != 80:
         fails.append("c02_filters_specials is bounded to 80 registered filters, found %d" % len(NAMES))
     return fails
